@@ -29,6 +29,9 @@ func (p *Parser) parseWithStatement() (ast.Statement, error) {
 	for {
 		cte, err := p.parseCommonTableExpr()
 		if err != nil {
+			if isPropagatedError(err) {
+				return nil, err
+			}
 			return nil, goerrors.InvalidCTEError(
 				fmt.Sprintf("error parsing CTE definition: %v", err),
 				models.Location{},
@@ -54,6 +57,9 @@ func (p *Parser) parseWithStatement() (ast.Statement, error) {
 	// Parse the main statement that follows the WITH clause
 	mainStmt, err := p.parseMainStatementAfterWith()
 	if err != nil {
+		if isPropagatedError(err) {
+			return nil, err
+		}
 		return nil, goerrors.InvalidCTEError(
 			fmt.Sprintf("error parsing statement after WITH clause: %v", err),
 			models.Location{},
@@ -192,6 +198,9 @@ func (p *Parser) parseCommonTableExpr() (*ast.CommonTableExpr, error) {
 	}
 
 	if err != nil {
+		if isPropagatedError(err) {
+			return nil, err
+		}
 		return nil, goerrors.InvalidCTEError(
 			fmt.Sprintf("error parsing CTE subquery: %v", err),
 			models.Location{},
